@@ -1051,9 +1051,64 @@ struct Exec {
             s.old_words[w] = { wid, lib_lookup(s, w, &present) };
         }
     }
+    // "usable immediately in grammars and alignment text": the search reads a word's cross-word context models from the
+    // dictionary-to-model tables; for a word to be usable its rows must hold the model's answer (the senone sequence of
+    // the nearest triphone in the model definition) for every possible neighbour - checked here deterministically,
+    // before any search dereferences a missing row
+    void d2p_check_word(DecState &s, const std::string &spelling, int opi, const char *when)
+    {
+        dict_t *dict = s.d->dict;
+        dict2pid_t *d2p = s.d->d2p;
+        bin_mdef_t *mdef = s.d->acmod->mdef;
+        s3wid_t wid = dict_wordid(dict, spelling.c_str());
+        if (wid == BAD_S3WID || !d2p)
+            return;
+        const int nci = bin_mdef_n_ciphone(mdef), np = dict_pronlen(dict, wid);
+        out.checks++;
+        auto want = [&](int b, int l, int r, word_posn_t pos) { return (int)bin_mdef_pid2ssid(mdef, bin_mdef_phone_id_nearest(mdef, b, l, r, pos)); };
+        std::string where = std::string(when) + ": word '" + spelling + "'";
+        if (np > 1) {
+            int b = dict_first_phone(dict, wid), r = dict_second_phone(dict, wid);
+            for (int l = 0; l < nci; ++l) {
+                int got = d2p->ldiph_lc[b][r][l];
+                if (got != want(b, l, r, WORD_POSN_BEGIN)) {
+                    viol("C16", "context_tables", "word_initial", where + ": first phone " + bin_mdef_ciphone_str(mdef, b) + " after " + bin_mdef_ciphone_str(mdef, l) +
+                             " has model id " + std::to_string(got) + ", the model definition says " + std::to_string(want(b, l, r, WORD_POSN_BEGIN)), opi);
+                    return;
+                }
+            }
+            int e = dict_last_phone(dict, wid), pl = dict_second_last_phone(dict, wid);
+            xwdssid_t *x = &d2p->rssid[e][pl];
+            for (int rc = 0; rc < nci; ++rc) {
+                int got = x->n_ssid > 0 && x->cimap && x->ssid && x->cimap[rc] < x->n_ssid ? (int)x->ssid[x->cimap[rc]] : -1;
+                if (got != want(e, pl, rc, WORD_POSN_END)) {
+                    viol("C16", "context_tables", "word_final", where + ": last phone " + bin_mdef_ciphone_str(mdef, e) + " before " + bin_mdef_ciphone_str(mdef, rc) +
+                             " has model id " + std::to_string(got) + ", the model definition says " + std::to_string(want(e, pl, rc, WORD_POSN_END)), opi);
+                    return;
+                }
+            }
+        } else if (np == 1) {
+            int b = dict_first_phone(dict, wid);
+            for (int l = 0; l < nci; ++l)
+                for (int r = 0; r < nci; ++r) {
+                    int got = d2p->lrdiph_rc[b][l][r];
+                    if (got != want(b, l, r, WORD_POSN_SINGLE)) {
+                        viol("C16", "context_tables", "one_phone_word", where + ": phone " + bin_mdef_ciphone_str(mdef, b) + " between " + bin_mdef_ciphone_str(mdef, l) + " and " +
+                                 bin_mdef_ciphone_str(mdef, r) + " has model id " + std::to_string(got) + ", the model definition says " + std::to_string(want(b, l, r, WORD_POSN_SINGLE)), opi);
+                        return;
+                    }
+                }
+        }
+        out.probes["dict.context_tables_checked"]++;
+    }
     void dict_check_all(DecState &s, int opi, const char *when)
     {
         out.checks++;
+        for (auto &kv : s.old_words)
+            d2p_check_word(s, kv.first, opi, when);
+        for (auto &kv : s.dict_model)
+            if (kv.first.compare(0, 8, "\001absent:") != 0)
+                d2p_check_word(s, kv.first, opi, when);
         for (auto &kv : s.dict_model) {
             if (kv.first.compare(0, 8, "\001absent:") == 0) {
                 bool present;
@@ -1936,6 +1991,7 @@ struct Gen {
     }
     // schedule of feeds (and interleaved queries) for an utterance of N samples
     Json last_sig = Json::object();
+    bool last_full = false, force_repeat = false, force_end_align = false;
     std::string last_lng;
     std::vector<std::string> last_prefer;
     void schedule(int d, int64_t N, bool canonical, bool full, double qrate, bool allow_align, bool allow_ns)
@@ -2019,13 +2075,23 @@ struct Gen {
     {
         std::string lng = lang_of(tmpl);
         std::vector<std::string> prefer;
+        bool force_align = false;
         Json sig = clip(lng, maxn, true, &prefer);
         // the same audio again under another grammar or text (a corrected transcript): same frame count, other result
-        if (align_heavy && !last_sig.o.empty() && last_lng == lng && r.chance(0.35)) {
-            sig = last_sig;
-            prefer = last_prefer;
-            new_grammar = true;
+        // ... or other audio of exactly the same length under the same grammar: same frame count, other result
+        if (align_heavy && !last_sig.o.empty() && last_lng == lng && (force_repeat || r.chance(0.35))) {
+            if (!force_repeat && r.chance(0.5)) {
+                sig = last_sig;
+                prefer = last_prefer;
+                new_grammar = true;
+            } else {
+                sig.set("n", last_sig.geti("n"));
+                new_grammar = false;
+                full = last_full; // same way of feeding: the frame counts then agree before end_utt as well
+                force_align = true;
+            }
         }
+        last_full = full;
         last_sig = sig;
         last_lng = lng;
         last_prefer = prefer;
@@ -2050,9 +2116,15 @@ struct Gen {
             b.set("grow", r.chance(0.5));
         push(b, d);
         schedule(d, sig.geti("n"), canonical, full, qrate, allow_align, !canonical);
+        if (force_align && allow_align) {
+            Json q = Json::object();
+            q.set("op", "query");
+            q.set("what", "align");
+            push(q, d);
+        }
         Json e = Json::object();
         e.set("op", "end");
-        if (allow_align && r.chance(0.3))
+        if (allow_align && (force_end_align || r.chance(0.3)))
             e.set("align", true);
         push(e, d);
         if (r.chance(0.3))
@@ -2086,6 +2158,8 @@ struct DecWorld : World {
             return tier ? 50000 : 1400;
         if (p == "C18")
             return tier ? 8000 : 500;
+        if (p == "C01")
+            return tier ? 80000 : 2400;
         return tier ? 60000 : 1600;
     }
     int watchdog_s(const std::string &) const override { return 120; }
@@ -2245,6 +2319,16 @@ struct DecWorld : World {
             int nu = (int)r.weighted({ 0, 65, 30, 5 });
             for (int u = 0; u < nu; ++u)
                 g.utterance(0, t, u == 0 || r.chance(0.5), false, r.chance(0.2), r.chance(0.1), 48000, r.chance(0.8) ? 0.4 : 0.1, r.chance(0.2), r.chance(0.3));
+            if (r.chance(0.12)) {
+                // twin utterances: whole-utterance feeds of the same length under one grammar, the first aligned after its
+                // end, the second before its end (any alignment kept from the first has the right frame count and the wrong content)
+                g.force_end_align = true;
+                g.utterance(0, t, true, false, false, true, 48000, 0.0, false, false);
+                g.force_end_align = false;
+                g.force_repeat = true;
+                g.utterance(0, t, false, false, false, true, 48000, 0.0, false, false);
+                g.force_repeat = false;
+            }
         } else if (prop == "C18") {
             // the hostile channel, CMN carried across 3-6 utterances and exported/imported between them
             std::string t = r.chance(0.6) ? "enc" : pick_tmpl(r);
@@ -2549,9 +2633,11 @@ struct DecWorld : World {
             std::string t = pick_tmpl(r);
             add_dec(t);
             g.allow_align = false;
+            grammar::set_convergence_bias(prop == "C01");
             int nu = (int)r.weighted({ 0, 60, 30, 10 });
             for (int u = 0; u < nu; ++u)
                 g.utterance(0, t, u == 0 || r.chance(0.6), false, r.chance(0.15), r.chance(0.1), 48000, r.chance(0.7) ? 0.35 : 0.0, prop == "C03" || r.chance(0.3), r.chance(0.2));
+            grammar::set_convergence_bias(false);
         }
         plan.set("decs", decs);
         plan.set("ops", g.ops);
